@@ -62,6 +62,11 @@ Fixpoint sep_by (sep : list token) (ls : list (list token)) : list token :=
   | x :: r => x ++ sep ++ sep_by sep r
   end.
 
+Fixpoint has_dot (s : string) : bool :=
+  match s with EmptyString => false | String c r => Ascii.eqb c "."%char || has_dot r end.
+(* an Identifier holds the text of a SIMPLE_IDENTIFIER or of a QUALIFIED_IDENTIFIER (one or two dots) *)
+Definition ident_token (s : string) : token := if has_dot s then TQId s else TId s.
+
 Section Print.
   (* fixed = false: faithful to __str__ ; fixed = true: repaired printer.
      tshow v: the text str(astropy Time) gives for time value v ; tunparse v: a time string that parses to v *)
@@ -82,7 +87,7 @@ Section Print.
     | Str s => [TStr s]
     | Time v => if fixed then [TTime (tshow v)] else [TStr (tshow v)]
     | Range a b st => [TRange a b st]
-    | Ident s => [TId s]
+    | Ident s => [ident_token s]
     | Bind s => if fixed then [TBind s] else [TId s]
     | Unary o x => uop_token o :: print_g x
     | Binary l o r => print_g l ++ bop_token o :: print_g r
